@@ -21,6 +21,7 @@ import Proofs.SemaphoreQueue
 import Proofs.SemaphoreRefresh
 import Proofs.SemaphoreStanding
 import Proofs.SemaphoreMJP
+import Martian.SemaphoreConfig
 import Gen.Facts
 
 namespace Props.C12
@@ -631,6 +632,175 @@ theorem normalized_amounts_fit_every_configuration (c : LocalCfg) (hc : Sane c)
         rcases i with _ | _ | _ | i <;> simp at hi <;> subst hi <;> simp <;> omega
       · intro s
         rcases s with _ | _ | _ | s <;> simp <;> omega
+
+/-! ## Where the limits come from: `NewLocalJobManager` (`setMaxCores`, `setMaxMem`)
+
+Model: Martian/SemaphoreConfig.lean — the three limits as pure functions of the
+user's flags and the observations of the machine.  `Sane` of the configuration
+the other theorems assume is PROVED of what `NewLocalJobManager` produces. -/
+
+section SetMax
+open Martian.SemaphoreConfig
+
+/-- **Floors.**  Whatever the flags and the machine: the memory limit is at least
+1 GB; the core limit is at least 1 as soon as the machine reports a CPU and the
+job settings' `threads_per_job` is positive (martian refuses other settings). -/
+theorem configured_limits_floor (f : Flags) (m : Machine) :
+    1 ≤ maxMemGBModel f m ∧ (1 ≤ m.numCPU → 1 ≤ m.threadsPerJob → 1 ≤ setMaxCoresModel f m) := by
+  constructor
+  · simp only [maxMemGBModel]
+    repeat' split
+    all_goals omega
+  · intro h1 h2
+    simp only [setMaxCoresModel]
+    repeat' split
+    all_goals omega
+
+/-- **The produced configuration is `Sane`** — the hypothesis of `clamp_le_limits`,
+`normalized_amounts_fit_every_configuration` … — given only what martian validates in
+jobmanagers/config.json (`threads_per_job`, `memgb_per_job` ≥ 1), a machine with a CPU,
+and `extra_vmem_per_job ≥ 0` (the one conjunct martian does not validate). -/
+theorem setMax_config_is_sane (f : Flags) (m : Machine) (ev : Int)
+    (hcpu : 1 ≤ m.numCPU) (ht : 1 ≤ m.threadsPerJob) (hm : 1 ≤ m.memGBPerJob) (hev : 0 ≤ ev) :
+    Sane (setMaxModel f m ev) := by
+  have h := configured_limits_floor f m
+  exact ⟨h.2 hcpu ht, h.1, ht, hm, hev⟩
+
+/-- **A user's value is used as given** for cores and memory; for vmem it is an
+upper bound, used as given when there is no address-space rlimit and mrp has not
+recorded an address space of its own yet (the situation inside
+`NewLocalJobManager`); it is REPLACED by the rlimit when that is lower, and
+REDUCED by mrp's own recorded address space when more than 1 GB remains.
+Without `--localvmem` and without an rlimit there is no vmem limit (0). -/
+theorem user_limit_respected (f : Flags) (m : Machine) :
+    (f.cores > 0 → setMaxCoresModel f m = f.cores) ∧
+    (f.memGB > 0 → maxMemGBModel f m = f.memGB) ∧
+    (f.vmemGB > 0 → 0 ≤ m.highVmem → 0 ≤ m.vmemLimit → maxVmemMBModel f m ≤ f.vmemGB * 1024) ∧
+    (m.vmemLimit / MB = 0 → m.highVmem / MB = 0 → maxVmemMBModel f m = f.vmemGB * 1024) := by
+  refine ⟨?_, ?_, ?_, ?_⟩
+  · intro h; simp [setMaxCoresModel, h]
+  · intro h; simp [maxMemGBModel, h]
+  · intro _ hh hl
+    have h1 : 0 ≤ m.highVmem / MB := Int.ediv_nonneg hh (by decide)
+    simp only [maxVmemMBModel]
+    repeat' split
+    all_goals omega
+  · intro hl hs
+    simp only [maxVmemMBModel, hl, hs]
+    simp
+
+/-- **`--localvmem` equal to `--localmem`** (the natural "same value" setting, no
+address-space rlimit).  With an address space `self > 0` MB of its own on record
+and more than 1 GB left, `setMaxMem` produces `maxVmemMB = memGB*1024 - self`,
+strictly BELOW the memory limit — the precondition of the known finding F18
+(`vmem_floor_exceeds_limit`): a job asking for the memory limit is then refused
+by the vmem semaphore. -/
+theorem same_localmem_localvmem_triggers_vmem_floor (f : Flags) (m : Machine)
+    (hv : f.vmemGB = f.memGB) (hm : f.memGB > 0) (hl : m.vmemLimit / MB = 0)
+    (hs : 0 < m.highVmem / MB) (hroom : m.highVmem / MB + 1024 < f.memGB * 1024) :
+    maxVmemMBModel f m = f.memGB * 1024 - m.highVmem / MB ∧
+    maxVmemMBModel f m < maxMemGBModel f m * 1024 := by
+  have hmem : maxMemGBModel f m = f.memGB := by simp [maxMemGBModel, hm]
+  have hvm : maxVmemMBModel f m = f.memGB * 1024 - m.highVmem / MB := by
+    simp only [maxVmemMBModel, hl, hv]
+    simp only [true_or, if_true]
+    rw [if_pos hroom]
+  exact ⟨hvm, by rw [hvm, hmem]; omega⟩
+
+/-- … but inside `NewLocalJobManager` nothing is on record yet (`setMaxMem` runs
+before `setupSemaphores` fills `highMem`; regenerated: `skel_NewLocalJobManager_ok`), so
+there the same-value setting gives `maxVmemMB = maxMemGB*1024` exactly and F18's precondition
+does NOT arise from it; it arises from `--localvmem < --localmem` or a lower rlimit
+(replayed on the real `NewLocalJobManager` by the harness). -/
+theorem same_localmem_localvmem_at_construction (f : Flags) (m : Machine)
+    (hv : f.vmemGB = f.memGB) (hm : f.memGB > 0) (hl : m.vmemLimit / MB = 0) (h0 : m.highVmem = 0) :
+    maxVmemMBModel f m = maxMemGBModel f m * 1024 := by
+  have hmem : maxMemGBModel f m = f.memGB := by simp [maxMemGBModel, hm]
+  have := (user_limit_respected f m).2.2.2 hl (by rw [h0]; decide)
+  rw [this, hmem, hv]
+
+/-- Side observation (witness; true of the code, see `skel_setMaxMem_ok`: the test is
+`self.maxVmemMB == 0 || int64(userMaxVMemGB)*1024 < self.maxVmemMB` without `userMaxVMemGB > 0`):
+WITHOUT `--localvmem` an address-space rlimit (`ulimit -v`, here 16 GB) does not become the vmem
+limit — 0 < 16384 replaces it by the unset user value 0, i.e. no vmem semaphore at all. -/
+theorem vmem_rlimit_dropped_without_localvmem :
+    maxVmemMBModel ⟨0, 1, 0, true⟩ ⟨16, 64 * GB, 50 * GB, 0, 0, 16 * GB, 0, 1, 5⟩ = 0 ∧
+    maxVmemMBModel ⟨0, 1, 32, true⟩ ⟨16, 64 * GB, 50 * GB, 0, 0, 16 * GB, 0, 1, 5⟩ = 16384 := by decide
+
+/-- instance: `--localmem 4 --localvmem 4`, 300 MB of own address space on record: the vmem
+limit is 3796 MB, and a job asking for 4 GB (clamped to the memory limit) acquires 4096 on it:
+refused (F18) -/
+theorem same_value_instance_refused :
+    let f : Flags := ⟨2, 4, 4, false⟩
+    let m : Machine := ⟨16, 64 * GB, 50 * GB, 0, 0, 0, 300 * MB, 1, 1⟩
+    let c := setMaxModel f m 0
+    c = ⟨2, 4, 3796, 1, 1, 0⟩ ∧
+    (acquireAmounts (normalize c 4096 3796 ⟨100, 4096, 0⟩)).2.2.1 = 4096 ∧
+    (step (Sem.init c.maxVmemMB) (.acquire 1 4096)).2 = [.reject 1 4096] := by decide
+
+/-! ### Regenerated obligations: the code the configuration model mirrors (sole static tie: strict) -/
+
+theorem skel_NewLocalJobManager_ok :
+    Gen.c12Skel_NewLocalJobManager_extracted = true ∧ Gen.c12Skel_NewLocalJobManager =
+    ["jc, err := verifyJobManager(\"local\", config, -1)",
+     "self.setMaxCores(userMaxCores, clusterMode)",
+     "self.setMaxMem(userMaxMemGB, userMaxVMemGB, clusterMode)",
+     "self.setupSemaphores()"] := by
+  exact ⟨rfl, rfl⟩
+
+theorem skel_setMaxCores_ok :
+    Gen.c12Skel_setMaxCores_extracted = true ∧ Gen.c12Skel_setMaxCores =
+    ["if userMaxCores > 0",
+     "self.maxCores = userMaxCores",
+     "else",
+     "if clusterMode",
+     "self.maxCores = self.jobSettings.ThreadsPerJob",
+     "else",
+     "self.maxCores = runtime.NumCPU()"] := by
+  exact ⟨rfl, rfl⟩
+
+theorem skel_setMaxMem_ok :
+    Gen.c12Skel_setMaxMem_extracted = true ∧ Gen.c12Skel_setMaxMem =
+    ["err := sysMem.Get()",
+     "if err != nil && sysMem.Total == 0",
+     "cgMem, cgSoftLimit, cgUse := util.GetCgroupMemoryLimit()",
+     "if userMaxMemGB > 0",
+     "self.maxMemGB = userMaxMemGB",
+     "if cgMem > 0 && int64(userMaxMemGB)*1024*1024*1024 > cgMem",
+     "else",
+     "MAXMEM_FRACTION := 0.9",
+     "if cgMem > 0 && cgMem < sysMem.Total",
+     "sysMem.Total = cgMem",
+     "if cgUse < cgMem && cgMem-cgUse < sysMem.ActualFree",
+     "sysMem.ActualFree = cgMem - cgUse",
+     "MAXMEM_FRACTION = 0.96",
+     "if clusterMode",
+     "sysMemGB := int((sysMem.ActualFree + (1024*1024 - 1)) / (1024 * 1024 * 1024))",
+     "if self.jobSettings.MemGBPerJob < sysMemGB",
+     "sysMemGB = self.jobSettings.MemGBPerJob",
+     "if sysMemGB < 1",
+     "sysMemGB = 1",
+     "self.maxMemGB = sysMemGB",
+     "if sysMemGB < self.jobSettings.MemGBPerJob",
+     "else",
+     "else",
+     "sysMemGB := int(float64(sysMem.Total) * MAXMEM_FRACTION / 1073741824)",
+     "if sysMemGB < 1",
+     "sysMemGB = 1",
+     "self.maxMemGB = sysMemGB",
+     "if int64(self.maxMemGB*1024) > (sysMem.ActualFree+(1024*1024-1))/(1024*1024)",
+     "if cgSoftLimit != 0 && int64(self.maxMemGB)*1024*1024*1024 > cgSoftLimit",
+     "self.maxVmemMB = int64(CheckMaxVmem( uint64(1+self.maxMemGB)*uint64(self.highMem.Vmem+1024*1024*1024)) / (1024 * 1024))",
+     "if self.maxVmemMB == 0 || int64(userMaxVMemGB)*1024 < self.maxVmemMB",
+     "self.maxVmemMB = int64(userMaxVMemGB) * 1024",
+     "selfMem := self.highMem.Vmem / (1024 * 1024)",
+     "if selfMem+1024 < self.maxVmemMB",
+     "self.maxVmemMB -= selfMem",
+     "requiredVmemGB := int64(self.jobSettings.MemGBPerJob+self.jobSettings.ExtraVmemGB) + (self.highMem.Vmem+1024*1024*1024-1)/(1024*1024*1024)",
+     "if self.maxVmemMB > 0 && self.maxVmemMB/1024 < requiredVmemGB"] := by
+  exact ⟨rfl, rfl⟩
+
+end SetMax
 
 /-! ## The process semaphore's standing reservation
 
